@@ -168,6 +168,22 @@ CHECKS = {
          "(cleanup.NewController) are not driven yet. Known finding for the ignore-teardown options is listed.",
     technique="TLA+ controller lifecycle models + TLC; write-log recording; TLC trace validation after every write",
     ref="5.7"),
+ "C10": dict(
+    level="model_checking",
+    text="TLC exhaustively checks Persist.tla (DiskWrite -> MemApply -> Ack under the lock, failing disk writes, crash in any "
+         "state, lazy load that may fail): disk = result of the operations whose disk write succeeded, acknowledged operations "
+         "survive, memory never ahead of disk outside the critical section, a failed write is invisible, recovery reloads "
+         "disk. TLC-generated request sequences annotated with backing-store failures and crash points are executed on the "
+         "real inmem state over a real bbolt file (6 marshaler stackings) through a fault-injecting BackingStore decorator; "
+         "after every operation the contents through the API, the contents read back from the file and the number of watch "
+         "events are recorded, after every crash the re-opened contents; TLC judges (TracePersist.tla on top of Store.tla): "
+         "memory = disk = specification, failed writes invisible to memory, disk and watchers, state after restart = "
+         "acknowledged prefix (+ the in-flight operation at most), all fields and creation time intact, later operations "
+         "continue from it.",
+    note="Trusted: TLC, bbolt transaction atomicity; crashes are in-process (state dropped, file closed/re-opened) at the "
+         "decorator's crash points; SIGKILL inside bbolt transactions is not driven.",
+    technique="TLA+ persistence model + TLC; fault/crash-annotated replay on inmem+bbolt; TLC trace validation",
+    ref="5.10"),
 }
 
 NOT_YET = "check not built yet in this round (planned, see DESIGN.md section 5)"
